@@ -28,6 +28,8 @@ var c04Cfg = kit.WorldCfg{Stores: []kit.StoreCfg{
 	{Name: "kp", RefTo: "kt", RefWiring: kit.WireFkIndexNullable, BackRefOnParent: true},
 	// a hierarchy inside one store: deleting a node removes its whole sub-tree (cascade through the same constraint, re-entrantly)
 	{Name: "tree", RefTo: "tree", RefWiring: kit.WireConstraintDel},
+	// ... and one whose self reference restricts (fk constraint without cascade): a row that others refer to stays
+	{Name: "grp", RefTo: "grp", RefWiring: kit.WireConstraintNone},
 	// "bk" is a child store over the referrer store bn: the non-nullable reference is declared on its parent
 }, Children: []kit.ChildCfg{{Name: "kt", Parent: "targets"}, {Name: "bk", Parent: "bn"}}}
 
@@ -52,7 +54,7 @@ func genC04(t *rapid.T) kit.History {
 	refs = append(refs, kit.Sp("missing"), kit.Sp(""))
 	// each history concentrates on 2-4 of the referrer stores, so that an entity is usually written several times
 	// (re-parented, patched, deleted) rather than nine stores receiving one operation each
-	allRefStores := []string{"an", "bn", "cn", "cd", "ec", "mgr", "kn", "kx", "kd", "kp", "tree", "tree"}
+	allRefStores := []string{"an", "bn", "cn", "cd", "ec", "mgr", "kn", "kx", "kd", "kp", "tree", "tree", "grp"}
 	var refStores []string
 	for i, k := 0, rapid.IntRange(2, 4).Draw(t, "nRefStores"); i < k; i++ {
 		refStores = append(refStores, allRefStores[rapid.IntRange(0, len(allRefStores)-1).Draw(t, fmt.Sprintf("refStore%d", i))])
@@ -96,7 +98,7 @@ func genC04(t *rapid.T) kit.History {
 			if have := existing(store); len(have) > 0 {
 				id := have[rapid.IntRange(0, len(have)-1).Draw(t, l+"_rpid")]
 				pool := targets
-				if store == "mgr" || store == "tree" {
+				if store == "mgr" || store == "tree" || store == "grp" {
 					pool = existing(store)
 				}
 				var refs []*string
@@ -121,7 +123,7 @@ func genC04(t *rapid.T) kit.History {
 		op := kit.GenEntOpM(t, l, store, u, m)
 		if op.Spec != nil && rapid.IntRange(0, 9).Draw(t, l+"_goodref") < 7 {
 			pool := targets
-			if store == "mgr" || store == "tree" {
+			if store == "mgr" || store == "tree" || store == "grp" {
 				pool = existing(store)
 			}
 			if store == "kn" || store == "kx" || store == "kd" || store == "kp" {
@@ -197,6 +199,27 @@ func genC04Full(t *rapid.T) kit.History {
 		h.Txs = append(h.Txs, tx)
 		h.Txs = append(h.Txs, kit.TxSpec{Ops: []kit.Op{{Kind: "delete", Store: "tree", ID: []string{"c00", "c01", "c02"}[rapid.IntRange(0, 2).Draw(t, "deepVictim")]}}})
 		return h
+	}
+	if rapid.IntRange(0, 5).Draw(t, "selfRootWithChildren") == 0 {
+		// a root that names itself as its parent, with children; its id sorts before (or behind) theirs. Deleting it
+		// is refused by the restricting self reference store: the children still refer to it
+		m := replayModel(h)
+		root := []string{"a-root", "m-root"}[rapid.IntRange(0, 1).Draw(t, "selfRootID")]
+		free := true
+		for _, id := range []string{root, "b-child", "c-child"} {
+			if _, exists := m.Ents["grp"][id]; exists {
+				free = false
+			}
+		}
+		if free {
+			h.Txs = append(h.Txs, kit.TxSpec{Ops: []kit.Op{
+				{Kind: "create", Store: "grp", ID: root, Spec: &kit.EntSpec{Name: "n"}},
+				{Kind: "update", Store: "grp", ID: root, Spec: &kit.EntSpec{Name: "n", Ref: kit.Sp(root)}},
+				{Kind: "create", Store: "grp", ID: "b-child", Spec: &kit.EntSpec{Name: "n", Ref: kit.Sp(root)}},
+				{Kind: "create", Store: "grp", ID: "c-child", Spec: &kit.EntSpec{Name: "n", Ref: kit.Sp(root)}}}})
+			h.Txs = append(h.Txs, kit.TxSpec{Ops: []kit.Op{{Kind: "delete", Store: "grp", ID: root}}})
+			return h
+		}
 	}
 	if rapid.IntRange(0, 5).Draw(t, "missingTargetThroughParent") == 0 {
 		// an entity with child data (created through the child store bk) is updated through the parent store bn to
